@@ -37,7 +37,7 @@ G3(n, a, b, c) == P(Gx(n, <<a, b, c>>))
 C(c, body) == P(Cond(c, body))
 
 \* ---- literals ----------------------------------------------------------------
-BoolLits == {"", "0", "1", "ON", "OFF", "off", "n", "No", "FALSE", "IGNORE", "NOTFOUND", "notfound", "x-NOTFOUND",
+BoolLits == {"", "0", "1", "ON", "OFF", "off", "n", "No", "FALSE", "IGNORE", "NOTFOUND", "x-NOTFOUND",
              "x-notfound", "-NOTFOUND", "2", "YES", "y", "true", "x", "NOTFOUNDx"}
 SmallLits == {"", "x", "Y", "a b"}
 CommaLits == {"a,b", "-Wl,-z"}          \* only where the manual allows arbitrary content
@@ -50,26 +50,28 @@ S0c == { L(t) : t \in SmallLits \cup CommaLits }
 B0 == { L("0"), L("1") }
 
 \* ---- level 1 -------------------------------------------------------------------
-B1 == B0
-      \cup { G1("BOOL", L(t)) : t \in BoolLits }
-      \cup { G1("NOT", b) : b \in B0 }
-      \cup { G2(op, a, b) : op \in {"AND", "OR"}, a \in B0, b \in B0 }
-      \cup { G3("AND", a, b, c) : a \in B0, b \in B0, c \in B0 }
-      \cup { G1("OR", a) : a \in B0 }
-      \cup { G2("STREQUAL", L(s), L(t)) : s \in SmallLits \cup {"y"}, t \in SmallLits \cup {"y"} }
-      \cup { G2("EQUAL", L(s), L(t)) : s \in NumLits, t \in NumLits }
-      \cup { G2(op, L(s), L(t)) : op \in VersionOps, s \in VerLits, t \in VerLits }
-      \cup { G1("TARGET_EXISTS", L(t)) : t \in TgtLits }
-S1 == S0
-      \cup { C(b, s) : b \in B0, s \in S0c }
-      \cup { G3("IF", b, s, t) : b \in B0, s \in S0, t \in S0 }
-      \cup { G1(op, s) : op \in ArbitraryContentOps, s \in S0c \cup {L("MiXed")} }
-      \cup { G0(op) : op \in ZeroAryOps }
-      \cup { G2("TARGET_PROPERTY", L("tA"), L(p)) : p \in {"FOO", "OPTS", "ONE", "OFFV", "NOPE"} }
-      \cup { G1("TARGET_PROPERTY", L(p)) : p \in {"FOO", "NOPE"} }
-      \cup { G1("TARGET_NAME_IF_EXISTS", L(t)) : t \in TgtLits }
-      \cup { G1(op, L(t)) : op \in FileOps, t \in {"tB", "tC"} }
-      \cup { <<Lit("-I"), s[1], Lit("/inc")>> : s \in { G1("BUILD_INTERFACE", L("/src")), G0("COMMA"), C(L("1"), L("opt")) } }
+B1 == UNION {
+      B0,
+      { G1("BOOL", L(t)) : t \in BoolLits },
+      { G1("NOT", b) : b \in B0 },
+      { G2(op, a, b) : op \in {"AND", "OR"}, a \in B0, b \in B0 },
+      { G3("AND", a, b, c) : a \in B0, b \in B0, c \in B0 },
+      { G1("OR", a) : a \in B0 },
+      { G2("STREQUAL", L(s), L(t)) : s \in SmallLits \cup {"y"}, t \in SmallLits \cup {"y"} },
+      { G2("EQUAL", L(s), L(t)) : s \in NumLits, t \in NumLits },
+      { G2(op, L(s), L(t)) : op \in VersionOps, s \in VerLits, t \in VerLits },
+      { G1("TARGET_EXISTS", L(t)) : t \in TgtLits } }
+S1 == UNION {
+      S0,
+      { C(b, s) : b \in B0, s \in S0c },
+      { G3("IF", b, s, t) : b \in B0, s \in S0, t \in S0 },
+      { G1(op, s) : op \in ArbitraryContentOps, s \in S0c \cup {L("MiXed")} },
+      { G0(op) : op \in ZeroAryOps },
+      { G2("TARGET_PROPERTY", L("tA"), L(p)) : p \in {"FOO", "OPTS", "ONE", "OFFV", "NOPE"} },
+      { G1("TARGET_PROPERTY", L(p)) : p \in {"FOO", "NOPE"} },
+      { G1("TARGET_NAME_IF_EXISTS", L(t)) : t \in TgtLits },
+      { G1(op, L(t)) : op \in FileOps, t \in {"tB", "tC"} },
+      { <<Lit("-I"), s[1], Lit("/inc")>> : s \in { G1("BUILD_INTERFACE", L("/src")), G0("COMMA"), C(L("1"), L("opt")) } } }
 
 \* small representative subsets used on one side of binary constructions
 B1s == { L("0"), L("1"), G1("BOOL", L("ON")), G1("NOT", L("1")), G2("STREQUAL", L("x"), L("x")), G1("TARGET_EXISTS", L("zz")) }
@@ -77,55 +79,65 @@ S1s == { L(""), L("x"), G0("COMMA"), G2("TARGET_PROPERTY", L("tA"), L("OPTS")), 
          G1("UPPER_CASE", L("Y")), C(L("1"), L("a,b")), G1("INSTALL_INTERFACE", L("x")), <<Lit(" "), Lit("x")>> }
 
 \* ---- level 2 -------------------------------------------------------------------
-B2 == { G1("NOT", b) : b \in B1 }
-      \cup { G1("BOOL", s) : s \in S1 }
-      \cup { G2(op, a, b) : op \in {"AND", "OR"}, a \in B1, b \in B1s }
-      \cup { G2(op, a, b) : op \in {"AND", "OR"}, a \in B1s, b \in B1 }
-      \cup { G2("STREQUAL", s, t) : s \in S1, t \in S1s }
-      \cup { G2("STREQUAL", s, t) : s \in S1s, t \in S1 }
-      \cup { G2("EQUAL", G3("IF", b, L(s), L(t)), L("4")) : b \in B0, s \in NumLits, t \in NumLits }
-      \cup { G2(op, G1("LOWER_CASE", L(s)), L(t)) : op \in VersionOps, s \in VerLits, t \in VerLits }
-S2 == { C(b, s) : b \in B1, s \in {L("x"), L("a,b")} }
-      \cup { C(b, s) : b \in B1s, s \in S1 }
-      \cup { G3("IF", b, L("x"), L("Y")) : b \in B1 }
-      \cup { G3("IF", b, s, t) : b \in B1s, s \in S1s, t \in S1s }
-      \cup { G1(op, s) : op \in ArbitraryContentOps, s \in S1 }
-      \cup { G2("TARGET_PROPERTY", t, L("FOO")) : t \in { G1("TARGET_NAME_IF_EXISTS", L("tA")), C(L("1"), L("tA")) } }
-      \cup { <<Lit("-D"), s[1]>> : s \in S1 \ S0 }
-      \cup { <<s[1], Lit(";"), t[1]>> : s \in S1s \ {<<Lit(" "), Lit("x")>>}, t \in S1s \ {<<Lit(" "), Lit("x")>>} }
+B2P == <<
+      { G1("NOT", b) : b \in B1 },
+      { G1("BOOL", s) : s \in S1 },
+      { G2(op, a, b) : op \in {"AND", "OR"}, a \in B1, b \in B1s },
+      { G2(op, a, b) : op \in {"AND", "OR"}, a \in B1s, b \in B1 },
+      { G2("STREQUAL", s, t) : s \in S1, t \in S1s },
+      { G2("STREQUAL", s, t) : s \in S1s, t \in S1 },
+      { G2("EQUAL", G3("IF", b, L(s), L(t)), L("4")) : b \in B0, s \in NumLits, t \in NumLits },
+      { G2(op, G1("LOWER_CASE", L(s)), L(t)) : op \in VersionOps, s \in VerLits, t \in VerLits } >>
+S2P == <<
+      { C(b, s) : b \in B1, s \in {L("x"), L("a,b")} },
+      { C(b, s) : b \in B1s, s \in S1 },
+      { G3("IF", b, L("x"), L("Y")) : b \in B1 },
+      { G3("IF", b, s, t) : b \in B1s, s \in S1s, t \in S1s },
+      { G1(op, s) : op \in ArbitraryContentOps, s \in S1 },
+      { G2("TARGET_PROPERTY", t, L("FOO")) : t \in { G1("TARGET_NAME_IF_EXISTS", L("tA")), C(L("1"), L("tA")) } },
+      { <<Lit("-D"), s[1]>> : s \in S1 \ S0 },
+      { <<s[1], Lit(";"), t[1]>> : s \in S1s \ {<<Lit(" "), Lit("x")>>}, t \in S1s \ {<<Lit(" "), Lit("x")>>} } >>
 
 \* ---- level 3 (thorough tier) ------------------------------------------------------
-B3 == { G1("NOT", b) : b \in B2 }
-      \cup { G1("BOOL", s) : s \in S2 }
-      \cup { G2(op, a, b) : op \in {"AND", "OR"}, a \in B2, b \in {L("1"), L("0"), G1("NOT", L("1"))} }
-      \cup { G2("STREQUAL", s, L("x")) : s \in S2 }
-S3 == { C(b, L("x")) : b \in B2 }
-      \cup { G3("IF", b, L("x"), G0("COMMA")) : b \in B2 }
-      \cup { G1("UPPER_CASE", s) : s \in S2 }
+Map1(ps, F(_)) == [i \in 1..Len(ps) |-> { F(x) : x \in ps[i] }]
+B3P == Map1(B2P, LAMBDA b : G1("NOT", b))
+       \o Map1(S2P, LAMBDA x : G1("BOOL", x))
+       \o Map1(B2P, LAMBDA a : G2("AND", a, L("1")))
+       \o Map1(B2P, LAMBDA a : G2("AND", a, G1("NOT", L("1"))))
+       \o Map1(B2P, LAMBDA a : G2("OR", a, L("0")))
+       \o Map1(B2P, LAMBDA a : G2("OR", G1("NOT", L("0")), a))
+       \o Map1(S2P, LAMBDA x : G2("STREQUAL", x, L("x")))
+S3P == Map1(B2P, LAMBDA b : C(b, L("x")))
+       \o Map1(B2P, LAMBDA b : G3("IF", b, L("x"), G0("COMMA")))
+       \o Map1(S2P, LAMBDA x : G1("UPPER_CASE", x))
 
-BSpace == B1 \cup (IF Level >= 2 THEN B2 ELSE {}) \cup (IF Level >= 3 THEN B3 ELSE {})
-SSpace == S1 \cup (IF Level >= 2 THEN S2 ELSE {}) \cup (IF Level >= 3 THEN S3 ELSE {})
+\* the space is kept as a sequence of pieces (TLC's set union of large sets of deep records is quadratic)
+BPieces == <<B1>> \o (IF Level >= 2 THEN B2P ELSE <<>>) \o (IF Level >= 3 THEN B3P ELSE <<>>)
+SPieces == <<S1>> \o (IF Level >= 2 THEN S2P ELSE <<>>) \o (IF Level >= 3 THEN S3P ELSE <<>>)
 
 \* ---- expressions for which the manual prescribes an error / that Meson does not support ------
 IllSpace == { G1("NOT", L("x")), G1("NOT", L("")), G2("AND", L("1"), L("x")), G2("OR", L("ON"), L("0")),
               G2("IF", L("1"), L("a")), G1("IF", L("1")), P(Gx("IF", <<L("1"), L("a"), L("b"), L("c")>>)),
               G3("IF", L("ON"), L("a"), L("b")), C(L("ON"), L("a")), C(L("x"), L("a")),
-              G2("EQUAL", L("a"), L("4")), G1("STREQUAL", L("a")), G1("COMMA", L("x")),
+              G2("EQUAL", L("a"), L("4")), G1("STREQUAL", L("a")),
               G2("TARGET_PROPERTY", L("zz"), L("FOO")), G1("TARGET_FILE", L("zz")), G1("TARGET_FILE", L("tA")),
               G1("CONFIG", L("Debug")), G0("CONFIG"), G1("LINK_ONLY", L("x")), G0("PLATFORM_ID"),
               G1("NOT", G1("NOT", L("ON"))), C(G1("CONFIG", L("Debug")), L("a")),
               G3("IF", G1("NOT", L("x")), L("a"), L("b")), <<Lit("a"), Gx("NOT", <<L("x")>>), Lit("b")>> }
 
-Space == BSpace \cup SSpace \cup IllSpace
+\* ty: "b" = boolean-typed, "s" = string-typed, "ill" = the manual prescribes an error
+PiecesOf(t) == CASE t = "b" -> BPieces [] t = "s" -> SPieces [] t = "ill" -> <<IllSpace>>
 
-VARIABLES e0, e
-vars == <<e0, e>>
+VARIABLES e0, ty, e
+vars == <<e0, ty, e>>
 
-Init == e0 \in Space /\ e = e0
+Init == /\ ty \in {"b", "s", "ill"}
+        /\ \E i \in 1..Len(PiecesOf(ty)) : e0 \in PiecesOf(ty)[i]
+        /\ e = e0
 Next == /\ \E path \in Redexes(e) :
               /\ EvalN(NodeAt(e, path), Ctx0).e = ""
               /\ e' = ReduceAt(e, path, Ctx0)
-        /\ UNCHANGED e0
+        /\ UNCHANGED <<e0, ty>>
 Spec == Init /\ [][Next]_vars
 
 V(p) == EvalP(p, Ctx0)
@@ -134,9 +146,9 @@ Not(b) == G1("NOT", b)
 \* ---- totality --------------------------------------------------------------------------------
 ErrorReasons == {"arity", "not-boolean", "not-a-number", "no-such-target", "no-context-target", "no-location", "unsupported"}
 Total == /\ V(e0).e \in {""} \cup ErrorReasons
-         /\ (e0 \in BSpace \cup SSpace) => V(e0).e = ""
-         /\ (e0 \in IllSpace) => V(e0).e # ""
-BoolIsBit == e0 \in BSpace => IsBit(V(e0).v)
+         /\ (ty \in {"b", "s"}) => V(e0).e = ""
+         /\ (ty = "ill") => V(e0).e # ""
+BoolIsBit == ty = "b" => IsBit(V(e0).v)
 \* ---- determinism: any evaluation order -----------------------------------------------------
 SubjectReduction == V(e) = V(e0)
 NormalForm == (Redexes(e) = {}) => (AllLit(e) /\ LitText(e) = V(e0).v /\ V(e0).e = "")
@@ -145,18 +157,18 @@ StuckIsError == (~ENABLED Next /\ ~AllLit(e)) <=> V(e0).e # ""
 Terminates == [][SizeP(e') < SizeP(e)]_vars
 \* ---- laws of the manual ----------------------------------------------------------------------
 PlainTextUnchanged == AllLit(e0) => V(e0) = Ok(LitText(e0))
-NotNotIsBool == e0 \in BSpace => /\ V(Not(Not(e0))) = V(G1("BOOL", e0))
+NotNotIsBool == ty = "b" => /\ V(Not(Not(e0))) = V(G1("BOOL", e0))
                                  /\ V(Not(Not(e0))) = V(e0)
-BoolIdempotent == (e0 \in SSpace) => V(G1("BOOL", G1("BOOL", e0))) = V(G1("BOOL", e0))
+BoolIdempotent == (ty = "s") => V(G1("BOOL", G1("BOOL", e0))) = V(G1("BOOL", e0))
 IsBin(p, op) == Len(p) = 1 /\ p[1].k = "gx" /\ p[1].n = op /\ Len(p[1].a) = 2
-DeMorgan == /\ (e0 \in BSpace /\ IsBin(e0, "AND")) => V(Not(e0)) = V(G2("OR", Not(e0[1].a[1]), Not(e0[1].a[2])))
-            /\ (e0 \in BSpace /\ IsBin(e0, "OR")) => V(Not(e0)) = V(G2("AND", Not(e0[1].a[1]), Not(e0[1].a[2])))
+DeMorgan == /\ (ty = "b" /\ IsBin(e0, "AND")) => V(Not(e0)) = V(G2("OR", Not(e0[1].a[1]), Not(e0[1].a[2])))
+            /\ (ty = "b" /\ IsBin(e0, "OR")) => V(Not(e0)) = V(G2("AND", Not(e0[1].a[1]), Not(e0[1].a[2])))
 IfIsTwoConditionals ==
-    (e0 \in SSpace /\ Len(e0) = 1 /\ e0[1].k = "gx" /\ e0[1].n = "IF") =>
+    (ty = "s" /\ Len(e0) = 1 /\ e0[1].k = "gx" /\ e0[1].n = "IF") =>
         LET c == e0[1].a[1]  a == e0[1].a[2]  b == e0[1].a[3]
         IN V(e0) = V(<<Cond(c, a), Cond(Not(c), b)>>)
 VersionTotalOrder ==
-    (e0 \in BSpace /\ Len(e0) = 1 /\ e0[1].k = "gx" /\ e0[1].n = "VERSION_LESS") =>
+    (ty = "b" /\ Len(e0) = 1 /\ e0[1].k = "gx" /\ e0[1].n = "VERSION_LESS") =>
         LET a == e0[1].a[1]  b == e0[1].a[2]
             lt == V(e0).v  gt == V(G2("VERSION_GREATER", a, b)).v  eq == V(G2("VERSION_EQUAL", a, b)).v
             One(x) == IF x = "1" THEN 1 ELSE 0
@@ -165,14 +177,13 @@ VersionTotalOrder ==
            /\ V(G2("VERSION_GREATER_EQUAL", a, b)).v = V(Not(e0)).v
            /\ V(G2("VERSION_GREATER", b, a)).v = lt
 EqualIsNumeric ==
-    (e0 \in BSpace /\ IsBin(e0, "EQUAL") /\ AllLit(e0[1].a[1]) /\ AllLit(e0[1].a[2])) =>
+    (ty = "b" /\ IsBin(e0, "EQUAL") /\ AllLit(e0[1].a[1]) /\ AllLit(e0[1].a[2])) =>
         V(e0).v = Bit(IntVal(LitText(e0[1].a[1])) = IntVal(LitText(e0[1].a[2])))
 
 \* ---- export of the space for the conformance replay ----------------------------------------
-Tag(p) == IF p \in IllSpace THEN "ill" ELSE IF p \in BSpace THEN "b" ELSE "s"
 EmitSpace == /\ TLCGet("stats").diameter >= 0
-             /\ LET sq == SetToSeq(Space)
+             /\ LET TagSet(S, t) == LET sq == SetToSeq(S) IN [i \in 1..Len(sq) |-> [p |-> sq[i], ty |-> t]]
+                    Tagged(t) == FlattenSeq([i \in 1..Len(PiecesOf(t)) |-> TagSet(PiecesOf(t)[i], t)])
                 IN JsonSerialize("genex_space.json",
-                                 [ctx |-> Ctx0,
-                                  space |-> [i \in 1..Len(sq) |-> [p |-> sq[i], ty |-> Tag(sq[i])]]])
+                                 [ctx |-> Ctx0, space |-> Tagged("b") \o Tagged("s") \o Tagged("ill")])
 =============================================================================
